@@ -523,6 +523,39 @@ Definition monitor_dial (l : list Z) : list Z :=
   | _ => [ERR_MALFORMED; 0]
   end.
 
+(* ---- tag 5: the QUIC transport over the same TLS identity ------------------------------------------ *)
+(* 5 ktD ktL idD idL exp  okD ridD rkidD  okL ridL rkidL
+   a dialer holding identity idD dials, with expected peer exp, a listener holding idL (which accepts
+   any peer); ok 1 = Dial returned a connection / the listener accepted one.  Both present their
+   honest certificate. *)
+Definition honest_tside (id : Z) (exp : option N) : tside :=
+  mkTside exp [mkCert 1 1 true true
+                 [XLibp2p false (XSigned (NPub (Z.to_N id)) (NSig (Z.to_N id) (NCat TLSPREFIX (certpub 1)) 1))]] true.
+
+Definition quic_obs (ok rid rkid : Z) : tobs := mkTobs (if ok =? 1 then 0 else 1) rid rkid 0.
+
+Definition conform_quic (l : list Z) : list Z :=
+  match l with
+  | [_; _; idD; idL; exp; okD; ridD; rkD; okL; ridL; rkL] =>
+      let '(rc, rs) := tls_run (honest_tside idD (expect_of exp)) (honest_tside idL None) TNone in
+      let mc := tobs_of rc rs false in let ms := tobs_of rs rc false in
+      if negb (tobs_agree mc (quic_obs okD ridD rkD) false) then [ERR_MISMATCH; 0; to_cls mc; to_rid mc; okD; ridD]
+      else if negb (tobs_agree ms (quic_obs okL ridL rkL) false) then [ERR_MISMATCH; 1; to_cls ms; to_rid ms; okL; ridL]
+      else []
+  | _ => [ERR_MALFORMED; 0]
+  end.
+
+Definition monitor_quic (l : list Z) : list Z :=
+  match l with
+  | [_; _; idD; idL; exp; okD; ridD; rkD; okL; ridL; rkL] =>
+      let d := honest_tside idD (expect_of exp) in let ls := honest_tside idL None in
+      match judge_tls_side d ls idL false (quic_obs okD ridD rkD) with
+      | [] => tagd 0 1 (judge_tls_side ls d idD false (quic_obs okL ridL rkL))
+      | x => tagd 0 0 x
+      end
+  | _ => [ERR_MALFORMED; 0]
+  end.
+
 (* ---- dispatch ----------------------------------------------------------------------------------------- *)
 Definition conform_case (l : list Z) : list Z :=
   match l with
@@ -530,6 +563,7 @@ Definition conform_case (l : list Z) : list Z :=
   | 2 :: r => conform_verify r
   | 3 :: r => conform_tls r
   | 4 :: r => conform_dial r
+  | 5 :: r => conform_quic r
   | _ => [ERR_MALFORMED; 99]
   end.
 
@@ -539,5 +573,6 @@ Definition monitor_case (l : list Z) : list Z :=
   | 2 :: r => monitor_verify r
   | 3 :: r => monitor_tls r
   | 4 :: r => monitor_dial r
+  | 5 :: r => monitor_quic r
   | _ => [ERR_MALFORMED; 99]
   end.
